@@ -57,6 +57,12 @@ def _kv(toks):
 
 def _find_code_occurrence(text, needle, k, what):
     m = mask(text)
+    if needle.startswith('re:'):
+        # structural anchor given as a regular expression (matched at code positions only)
+        hits_ = [mm.start() for mm in re.finditer(needle[3:], text) if m[mm.start()] == CODE]
+        if len(hits_) < k:
+            raise CutError('anchor lost: %s %r (occurrence %d)' % (what, needle, k))
+        return hits_[k - 1]
     i = -1
     for _ in range(k):
         i = code_find(text, m, needle, i + 1)
@@ -493,6 +499,12 @@ def _do_cut(asm, toks, block, tmpl_line):
                 raise CutError('template line %d: //@at_entry only for fn cuts' % no)
             at = bo + 1
             lab = 'at_entry'
+        elif t0 == 'at_end':
+            # last position of the function body (just before its closing brace)
+            if kind != 'fn':
+                raise CutError('template line %d: //@at_end only for fn cuts' % no)
+            at = match_close(text, m, bo)
+            lab = 'at_end'
         elif t0 == 'before_tail':
             # @before-return: the line of the function body's tail expression (last line holding code)
             if kind != 'fn':
